@@ -260,6 +260,9 @@ def run(prop, seed, budget, ctx):
         for k, v in dh.items(): hist["discriminated:" + k] += v
         of, on = run_ordered(rnd, seed, budget, hist, distinct); failures += of; dn += on
         of, on = run_flat_reuse(rnd, seed, budget, hist, distinct); failures += of; dn += on
+        import schema_conv
+        of, on = schema_conv.run_conv_roundtrip(rnd, seed, budget, hist, distinct, build_module); failures += of; dn += on
+        for f in of: hist["P:" + f["why"][0].split(":")[0]] += 1
         return {"evaluations": len(meta) + dn, "distinct_nontrivial": len(distinct),
                 "rule": "generated types x values obtained by deserializing valid data x random options; plus discriminated unions (serialize adds the discriminator, the value "
                         "round-trips); non-trivial = non-leaf type; distinct by (type, datum, options)",
